@@ -361,6 +361,17 @@ def fold(node: ast.AST, env: Any = None) -> Any:
         if fn == 're.escape' and len(node.args) == 1:
             import re as _re
             return _re.escape(fold(node.args[0], env))
+        if isinstance(node.func, ast.Attribute) and node.func.attr == 'join' and isinstance(node.func.value, ast.Constant) \
+                and isinstance(node.func.value.value, str) and len(node.args) == 1 and not node.keywords:
+            arg = node.args[0]
+            if isinstance(arg, ast.GeneratorExp):
+                arg = ast.copy_location(ast.ListComp(elt=arg.elt, generators=arg.generators), arg)
+            try:
+                parts = fold(arg, env)
+                if isinstance(parts, (list, tuple)) and all(isinstance(x, str) for x in parts):
+                    return node.func.value.value.join(parts)
+            except NotConstant:
+                pass
         if fn == "''.join" and len(node.args) == 1:
             gen = node.args[0]
             if isinstance(gen, ast.GeneratorExp) and len(gen.generators) == 1:
